@@ -154,4 +154,35 @@ def ranges : Nat → List (Material × Nat) → List (Material × Nat × Nat)
 /-- the bytes of one read: a slice of the stream. -/
 def slice (stream : Wire.Bytes) (off len : Nat) : Wire.Bytes := (stream.drop off).take len
 
+/-! ## `io.ReadFull` over a reader that serves the stream in arbitrary chunks -/
+
+/-- `io.ReadFull(reader, buf[:n])` where the reader hands out the chunks `cs` one per `Read` (a chunk may
+be empty — `(0, nil)` — or shorter than what was asked for; a chunk longer than the request is split, the
+rest stays for the next `Read`): the bytes obtained and the chunks left. `none` = the reader ran dry. -/
+def readFull : List Wire.Bytes → Nat → Option (Wire.Bytes × List Wire.Bytes)
+  | cs, 0 => some ([], cs)
+  | [], _ + 1 => none
+  | c :: cs, n + 1 =>
+    if c.length ≤ n + 1 then (readFull cs (n + 1 - c.length)).map fun (b, r) => (c ++ b, r)
+    else some (c.take (n + 1), c.drop (n + 1) :: cs)
+
+/-- a single `Read` into a zeroed buffer of `n` bytes (what `reader.Read(buf)` without `io.ReadFull`
+leaves in `buf`): the first chunk, cut or zero-padded to `n`. -/
+def readOnce : List Wire.Bytes → Nat → Wire.Bytes
+  | [], n => List.replicate n 0
+  | c :: _, n => c.take n ++ List.replicate (n - c.length) 0
+
+/-- the logical reads of one `ApplyPreset` (`io.ReadFull` for each length, in order) over a chunked reader. -/
+def readAll : List Wire.Bytes → List Nat → Option (List Wire.Bytes)
+  | _, [] => some []
+  | cs, n :: ns =>
+    match readFull cs n with
+    | none => none
+    | some (b, r) => (readAll r ns).map (b :: ·)
+
+/-- consecutive slices of a stream with the given lengths. -/
+def slices : Wire.Bytes → List Nat → List Wire.Bytes
+  | _, [] => []
+  | s, n :: ns => s.take n :: slices (s.drop n) ns
+
 end KeyShare
